@@ -309,7 +309,55 @@ def legacy_call(w, ps, pos, call):
         return attempt(lambda: w.get_latex_maybe_optional_arg(pos, parsing_state=ps))
     return None
 
+def module_level_call(c):
+    """the pylatexenc-1 module-level function of the same name (deprecated, still exported): LatexWalker(s, **flags).<method>(...)
+    with the default context; returns the printed result or None when the case has no module-level spelling"""
+    from pylatexenc import latexwalker
+    call = c['call']; k = call[0]; s = c['s']; pos = c['pos']
+    if c['ctx'] != 'default' or c.get('ps') or c.get('pre'):
+        return None
+    fl = {'tolerant_parsing': c['tol']}
+    if k == 'nodes':
+        br, ee, mm, mx = call[1:5]
+        if mx is not None:
+            return None
+        kw = {}
+        if br is not None: kw['stop_upon_closing_brace'] = br[1] if br[0] == 'c' else (br[1], br[2])
+        if ee is not None: kw['stop_upon_end_environment'] = ee
+        if mm is not None: kw['stop_upon_closing_mathmode'] = mm
+        r = attempt(lambda: latexwalker.get_latex_nodes(s, pos, **dict(kw, **fl)))
+    elif k == 'expr':
+        if call[1] is not None:
+            return None
+        r = attempt(lambda: latexwalker.get_latex_expression(s, pos, **fl))
+        return show_tuple(r[1], bare=True) if r[0] == 'ok' else show_exc(r[1])
+    elif k == 'group':
+        b = call[1]
+        r = attempt(lambda: latexwalker.get_latex_braced_group(s, pos, brace_type=(b[1] if b[0] == 'c' else (b[1], b[2])), **fl))
+    elif k == 'env':
+        r = attempt(lambda: latexwalker.get_latex_environment(s, pos, environmentname=call[1], **fl))
+    elif k == 'opt':
+        r = attempt(lambda: latexwalker.get_latex_maybe_optional_arg(s, pos, **fl))
+    else:
+        return None
+    return show_tuple(r[1]) if r[0] == 'ok' else show_exc(r[1])
+
 def run_impl(c):
+    r = run_impl0(c)
+    if r.get('fail') is None and r.get('out') and ' || ' in r['out']:
+        try:
+            warnings.simplefilter('ignore')
+            ml = module_level_call(c)
+        except Exception as e:
+            ml = 'HARNESS ' + repr(e)
+        legacy = r['out'].split(' || ')[0]
+        if ml is not None and ml != legacy:
+            r = dict(r)
+            r['fail'] = {'kind': 'module-level-differs:' + c['call'][0],
+                         'detail': 'pylatexenc.latexwalker.<function>(s, pos=%d, ...) gives %s, LatexWalker(s).<method>(pos=%d, ...) gives %s' % (c['pos'], ml[:300], c['pos'], legacy[:300])}
+    return r
+
+def run_impl0(c):
     from pylatexenc import latexwalker
     from pylatexenc.latexnodes import parsers, nodes as N
     from pylatexenc.latexnodes import LatexWalkerEndOfStream
